@@ -27,7 +27,7 @@ TLC_JOBS = {
               ("ConstExprEnvMC", "ConstExprEnv_quick", 6, None, None)],
     "thorough": [("ConstExprMC", "ConstExpr_thorough", 8, None, None),
                  ("ConstExprMC", "ConstExpr_edge", 2, None, None),
-                 ("ConstExprMC", "ConstExpr_sim", 4, 40000, 9),
+                 ("ConstExprMC", "ConstExpr_sim", 4, 8000, 9),
                  ("NumLexMC", "NumLex_thorough", 4, None, None),
                  ("ConstExprEnvMC", "ConstExprEnv_thorough", 8, None, None)],
 }
@@ -232,6 +232,9 @@ HARD = [
     ("#define {n} alignof(double)", "M", True), ("#define {n} (int)2.9", "M", True),
     ("#define {n} int(7)", "M", True), ("#define {n} static_cast<int>(7) + 1", "M", True),
     ("#define {n} (long)5 + 1", "M", True), ("#define {n} (unsigned char)7", "M", True),
+    ("#define {n} (short)70000", "M", True), ("#define {n} (unsigned short)65537", "M", True),
+    ("#define {n} (unsigned)7", "M", True), ("#define {n} (unsigned)-1", "M", True),
+    ("enum EH_{i} {{ {n} = (short)-70000 }};", "E", True), ("#define {n} (long long)-5", "M", True),
     ("#define {n} \"abc\"[1]", "M", True), ("#define {n} not_declared_anywhere(3)", "M", False),
     ("#define {n} 1.5 + 1", "M", False), ("#define {n} 3 +", "M", False),
     # the value does not depend on the operand interrogate cannot evaluate
@@ -565,3 +568,32 @@ def run_check(ctx):
         ctx.sample(dict(kind=c["kind"], declarations=c["lines"], expected=c["expect"]))
     ctx.assumptions.append("int is 32 bit two's complement, char is signed 8 bit, >> of a negative value is arithmetic "
                            "(C++20): the platform of the oracle compiler; unsigned-suffixed literals only stand alone")
+
+
+def replay(path):
+    """./check C07 --replay <violation file>: run the recorded declarations through the current build
+    again and print what the database records now."""
+    import shutil
+    from ..common import scratch
+    d = json.load(open(path))
+    case = d["case"]
+    build.ensure("hooked")
+    work = scratch("C07-replay")
+    try:
+        open(os.path.join(work, "x.h"), "w").write("\n".join(prelude(LEAVES) + case["declarations"]) + "\n")
+        r = run.run_tool("interrogate", ["-od", "x.in", "-module", "m", "-library", "l", "-promiscuous", "x.h"],
+                         cwd=work, timeout=60, monitor=False)
+        print(d["desc"])
+        print("\n".join(case["declarations"]))
+        print("expected:", case["expected"])
+        if r.rc != 0:
+            print("interrogate: exit status %s signal %s\n%s" % (r.rc, r.signal, r.stderr[-500:]))
+            return 1
+        p = subprocess.run([sys.executable, DUMPER, os.path.join(build.libdir(), "libinterrogatedb.so"), "x.in"],
+                           cwd=work, stdout=subprocess.PIPE, text=True)
+        obs = json.loads(p.stdout)
+        mine = {k: {n: v for n, v in obs[k].items() if not n.startswith(("PE", "PM_", "PC_", "PX_"))} for k in "EMA"}
+        print("recorded now:", json.dumps(mine))
+        return 0
+    finally:
+        shutil.rmtree(work, ignore_errors=True)
